@@ -16,6 +16,7 @@ import concurrent.futures
 import copy
 import faulthandler
 import hashlib
+import importlib
 import json
 import multiprocessing
 import os
@@ -69,6 +70,15 @@ def fresh_z3_context():
     zz._main_ctx = None
     z3.set_param("smt.random_seed", 0)
     z3.set_param("sat.random_seed", 0)
+    # whatever cspuz's z3 backend module keeps at module level (today only the lazily imported z3
+    # handle; a refactor may keep a shared z3.Solver or cached constants there) belongs to the old
+    # context: re-execute that module so that the run starts like a fresh process on that side too
+    m = sys.modules.get("cspuz.backend.z3")
+    if m is not None:
+        try:
+            importlib.reload(m)
+        except Exception:
+            pass
 
 
 def import_cspuz():
